@@ -2,4 +2,4 @@ SPECIFICATION Spec
 CONSTANTS
   Programs <- SmallPrograms
 INVARIANTS TypeOK Quiescent BodyOnce UnstartedNeverRuns ArgsFreedOnce FrameFreedOnce BalanceZeroAtEnd
-  ResolveBeforeDestroy DeliveredToBoundOnly ObserveReady ClaimedPromiseLeavesUnstarted JoinReturns CleanEnd CallbackOnce
+  ResolveBeforeDestroy DeliveredToBoundOnly ObserveReady ClaimedPromiseLeavesUnstarted JoinReturns CleanEnd CallbackOnce PayloadIntact
